@@ -323,3 +323,20 @@ def main(ctx):
     ctx.sample({'leg': 'V', 'event': {'cfg': events[nR]['cfg'], 'lines': [''.join(x) for x in events[nR]['lines']]}})
     return ctx.finish(rule='M/R: two-row table, string index, one string column whose two cells range over all texts of <=2 (thorough 3) characters from {a, 1, blank, delimiter, quote} x delimiters comma / tab / pipe; every enumerated table written and read by the real Frame. '
                            'V: random tables (1-4 rows, index depth 1-3, columns depth 1-2, 1-4 columns of int (incl. +-2^31) / float quarters with NaN / bool / str cells over an alphabet with both delimiters, quote, blanks, digit-looking, Boolean-looking and StoreFilter words) x 4 delimiters x 2 quote characters x default / disabled StoreFilter x to_csv / to_tsv / to_delimited; pairs, records, items, dict-records, pickle, deepcopy routes')
+
+
+def replay(rec):
+    '''re-run one recorded delimited round trip on the current tree and print the file and the table read back'''
+    import json
+    case = rec.get('case') or {}
+    if 'T' not in case:
+        print(json.dumps(rec, indent=1)[:3000])
+        return 0
+    lines, res = run_delimited(case['T'], case['cfg'])
+    print('clause   :', rec.get('clause'))
+    print('cfg      :', case['cfg'])
+    print('file now :', [''.join(x) for x in lines])
+    print('recorded :', (rec.get('actual') or {}).get('lines'))
+    print('read now :', json.dumps(res)[:1500])
+    print('expected :', json.dumps(rec.get('expected'))[:1500])
+    return 0
